@@ -42,7 +42,7 @@ try:
         res["demo_patched_out"] = (r.stdout + r.stderr)[-300:]
         res["checks"] = {}
         for p in props:
-            r = sh(f"VERIF_REPO={WT} ./check {p} {tier}", cwd=ROOT, timeout=3600)
+            r = sh(f"VERIF_REPO={WT} VERIF_OUT={WT}/_vf_out ./check {p} {tier}", cwd=ROOT, timeout=3600)
             sig = [l.strip() for l in r.stdout.splitlines() if "violation kind" in l][:2]
             inc = [l.strip() for l in r.stdout.splitlines() if l.startswith("INCONCLUSIVE")][:2]
             res["checks"][p] = {"rc": r.returncode, "sig": sig, "inconclusive": inc}
